@@ -3,6 +3,7 @@ import NfpmModel.Ar
 import NfpmModel.Tar
 import NfpmModel.Pax
 import NfpmModel.Cpio
+import NfpmModel.RpmHdr
 import NfpmModel.Spec.PlanSpec
 import NfpmModel.Spec.PayloadSpec
 import NfpmModel.Spec.ScriptSpec
@@ -321,6 +322,23 @@ def handle (op : String) (args : List String) : Except String String :=
     match Cpio.read b with
     | none => pure "malformed"
     | some es => pure (s!"{es.length}" ++ String.join (es.map (fun e => s!" {e.ino} {hex e.name} {e.mode} {e.links} {e.body.length}")))
+  -- byte-level rpm file (lead, signature header, header, payload): model writer and reader
+  | "rpmfile" => do
+    let pEntry : P RpmHdr.Entry := do
+      let tag ← pNat; let typ ← pNat; let count ← pNat; let data ← pBytes
+      pure { tag, typ, count, data }
+    let (nv, sig, hdr, payload) ← run1 (do
+      let nv ← pBytes; let sig ← pList pEntry; let hdr ← pList pEntry; let payload ← pBytes
+      pure (nv, sig, hdr, payload)) args
+    pure (hex (RpmHdr.file nv sig hdr payload))
+  | "rpmfileread" => do
+    let b ← run1 pBytes args
+    match RpmHdr.readFile b with
+    | none => pure "malformed"
+    | some f =>
+      let ents (es : List RpmHdr.Entry) : String :=
+        s!"{es.length}" ++ String.join (es.map (fun e => s!" {e.tag} {e.typ} {e.count} {hex e.data}"))
+      pure s!"{hex f.leadName} {ents f.sig} {ents f.hdr} {f.hdrOff} {f.hdrLen} {f.payload.length}"
   | _ => .error s!"unknown op {op}"
 
 partial def loop (hin : IO.FS.Stream) (hout : IO.FS.Stream) : IO Unit := do
